@@ -193,7 +193,8 @@ static void setup_utf8dec(const Args& a, Runner& R) {
     g_utf8 = make_tc("UTF-8");
     std::string mode = a.str("mode", "quick");
     g_u8cases.push_back(U8Case{2, 0, 0});
-    for (int b = 0; b < 256; b++) g_u8cases.push_back(U8Case{3, (uint32_t)b, 0});
+    // 3-byte strings: every first byte (thorough) / every first byte C0..FF and the boundary values 00,41,7F,80,BF of the two remaining rows (quick)
+    for (int b = 0; b < 256; b++) if (mode != "quick" || b >= 0xC0 || b == 0x00 || b == 0x41 || b == 0x7F || b == 0x80 || b == 0xBF) g_u8cases.push_back(U8Case{3, (uint32_t)b, 0});
     if (mode == "quick") {
         // 4-byte strings: (a) every string over the 32 boundary bytes (32^4); (b) every string whose first byte is F0,F1,F4,F5 and whose
         // second byte is one of 6 boundary values (7F,80,8F,90,BF,C0), with ALL third and fourth bytes (24 x 65536)
